@@ -67,3 +67,33 @@ def ofL6 (x : List (List (List (List (List (List α)))))) : T α :=
   ⟨x.length :: ((t.head?.map (·.shape)).getD [0,0,0,0,0]), (t.map (·.data)).flatten⟩
 
 end WV
+
+namespace WV
+variable {α : Type}
+
+/-- row-major strides of a shape -/
+def stridesOf (shape : List Nat) : List Nat :=
+  (shape.foldr (fun d (acc : List Nat × Nat) => (acc.2 :: acc.1, acc.2 * d)) ([], 1)).1
+
+/-- multi-index of flat position `p` in `shape` -/
+def unravel (shape : List Nat) (p : Nat) : List Nat :=
+  (stridesOf shape).zip shape |>.map fun (st, d) => (p / st) % d
+
+/-- `torch.permute(t, perm)`: output axis `k` is input axis `perm[k]` -/
+def T.permute [Inhabited α] (t : T α) (perm : List Nat) : T α :=
+  let oshape := perm.map fun k => t.shape.getD k 0
+  let istr := stridesOf t.shape
+  let arr := t.data.toArray
+  let n := oshape.foldl (· * ·) 1
+  let data := (List.range n).map fun p =>
+    let oi := unravel oshape p
+    -- input index along axis perm[k] is oi[k]
+    let flat := (perm.zip oi).foldl (fun acc (k, i) => acc + i * istr.getD k 0) 0
+    arr.getD flat default
+  ⟨oshape, data⟩
+
+/-- inverse permutation -/
+def invPerm (perm : List Nat) : List Nat :=
+  (List.range perm.length).map fun k => (perm.findIdx? (· == k)).getD 0
+
+end WV
